@@ -183,6 +183,7 @@ func (c *fakeConn) SetWriteDeadline(t time.Time) error { return nil }
 // connections queue up (like a kernel accept backlog), so the script never
 // blocks on a busy accept loop.
 type fakeListener struct {
+	tr      *tracer
 	mu      sync.Mutex
 	wake    chan struct{}
 	backlog []net.Conn
@@ -190,8 +191,8 @@ type fakeListener struct {
 	closed  bool
 }
 
-func newFakeListener() *fakeListener {
-	return &fakeListener{wake: make(chan struct{})}
+func newFakeListener(tr *tracer) *fakeListener {
+	return &fakeListener{tr: tr, wake: make(chan struct{})}
 }
 
 func (l *fakeListener) signal() {
@@ -229,6 +230,10 @@ func (l *fakeListener) Accept() (net.Conn, error) {
 			c := l.backlog[0]
 			l.backlog = l.backlog[1:]
 			l.mu.Unlock()
+			// logged by the accept goroutine: from here on corebgp holds c
+			if fc, ok := c.(*fakeConn); ok {
+				l.tr.emit(event{E: "acc", C: fc.name})
+			}
 			return c, nil
 		}
 		w := l.wake
